@@ -52,6 +52,23 @@ fn limit_mode() -> BoxedStrategy<LimitMode> {
     .boxed()
 }
 
+pub fn search_case_strategy() -> BoxedStrategy<SearchCase> {
+    search_strategy(Tier::Quick)
+}
+
+/// the raw search of a case with an explicit limit (used by C20's profile differential)
+pub fn run_search_case(c: &SearchCase, limit: u64) -> String {
+    let inst = instance(c);
+    let sup = c.supply.build();
+    let wl = |r: response_time_analysis::time::Duration| s(inst.w(du(r)));
+    let r = if c.use_search && inst.offset == 0 {
+        fixed_point::search(&sup, d(limit), wl)
+    } else {
+        fixed_point::search_with_offset(&sup, Offset::from(inst.offset), d(limit), &wl)
+    };
+    format!("{:?}", r)
+}
+
 fn search_strategy(_tier: Tier) -> BoxedStrategy<SearchCase> {
     (
         any_supply(),
